@@ -1,5 +1,146 @@
 // harness commands owned by the check of property C16 (see tools/props/C16.py)
+//
+// c16 <opts> <src>      opts: log=1,probe=1,dropvm=1,gc=...   (comma separated, `-` for none)
+//   Logging is switched on BEFORE the Vm is built, so the allocation log starts at the birth of this
+//   thread's heap (bytes 0, threshold HEAP_INIT_BYTES_MAX).  Records:
+//     B <n>                                   number of log records written by Vm::with_built_ins (start-up)
+//     O/R/M                                   as for `run`
+//     P bytes threshold nobjects collections true_bytes   one per call of the native `heap_probe()`;
+//                                             true_bytes = sum over live boxes of size_of (kind sizes from the log)
+//     -- then the result value is dropped and a collection is forced --
+//     S bytes threshold nobjects collections  after the forced collection
+//     T true_bytes                            sum of the sizes of the boxes then in the heap
+//     K kind=count...                         live boxes by kind
+//     RK kind=count...                        boxes with num_roots > 0 by kind (snapshot), Vm still alive
+//     RS rooted_boxes sum_num_roots max_num_roots
+//     A size bytes_before threshold_before collected bytes_after threshold_after   (log=1) whole log
+//     D nobjects bytes rooted_boxes           (dropvm=1) after dropping the Vm and collecting again
+use std::cell::RefCell;
+use std::collections::HashMap;
+
+use yarel::error::Error;
+use yarel::memory::verif as gcv;
+use yarel::value::Value;
+use yarel::vm::{self, Vm};
+
+thread_local! {
+    static LOG: RefCell<Vec<gcv::AllocRecord>> = RefCell::new(Vec::new());
+    static SIZES: RefCell<HashMap<&'static str, usize>> = RefCell::new(HashMap::new());
+    static PROBES: RefCell<Vec<String>> = RefCell::new(Vec::new());
+}
+
+fn drain_log() {
+    let recs = gcv::take_alloc_log();
+    SIZES.with(|s| {
+        let mut s = s.borrow_mut();
+        for r in &recs {
+            s.insert(r.kind, r.size);
+        }
+    });
+    LOG.with(|l| l.borrow_mut().extend(recs));
+}
+
+fn true_bytes() -> usize {
+    drain_log();
+    SIZES.with(|s| {
+        let s = s.borrow();
+        gcv::object_kinds()
+            .iter()
+            .map(|(k, n)| s.get(k).copied().unwrap_or(0) * n)
+            .sum()
+    })
+}
+
+fn heap_probe(_vm: &mut Vm, _num_args: usize) -> Result<Value, Error> {
+    let (b, t, n, c) = gcv::stats();
+    let tb = true_bytes();
+    PROBES.with(|p| p.borrow_mut().push(format!("P {} {} {} {} {}", b, t, n, c, tb)));
+    Ok(Value::None)
+}
+
+fn kinds_line(tag: &str, kinds: &[(&'static str, usize)]) -> String {
+    let parts: Vec<String> = kinds
+        .iter()
+        .map(|(k, n)| format!("{}={}", crate::hex(k.as_bytes()), n))
+        .collect();
+    format!("{} {}", tag, parts.join(" "))
+}
+
+fn cmd_c16(args: &[&str], out: &mut Vec<String>) {
+    let optstr = args[0];
+    let o = crate::parse_opts(optstr);
+    let has = |k: &str| optstr.split(',').any(|x| x == k);
+    let src = crate::unhex_str(args[1]);
+    gcv::set_deref_check(Some(crate::deref_check));
+    gcv::set_logging(true);
+    gcv::take_alloc_log();
+    let mut vm = crate::new_vm();
+    vm.define_native("main", "heap_probe", heap_probe);
+    drain_log();
+    out.push(format!("B {}", LOG.with(|l| l.borrow().len())));
+    gcv::set_policy(o.gc);
+    {
+        let r = vm::interpret(&mut vm, src, None);
+        crate::emit_result(out, &r);
+        // r (a Value or an Error) is dropped here: no host handle but the Vm is left
+    }
+    for p in PROBES.with(|p| std::mem::take(&mut *p.borrow_mut())) {
+        out.push(p);
+    }
+    gcv::set_policy(gcv::Policy::Default);
+    gcv::force_collect();
+    let (b, t, n, c) = gcv::stats();
+    out.push(format!("S {} {} {} {}", b, t, n, c));
+    out.push(format!("T {}", true_bytes()));
+    out.push(kinds_line("K", &gcv::object_kinds()));
+    let snap = gcv::snapshot();
+    let mut rooted: HashMap<&'static str, usize> = HashMap::new();
+    let (mut nrooted, mut sum, mut max) = (0usize, 0usize, 0usize);
+    for bx in &snap {
+        if bx.num_roots > 0 {
+            *rooted.entry(bx.kind).or_insert(0) += 1;
+            nrooted += 1;
+            sum = sum.wrapping_add(bx.num_roots);
+            max = max.max(bx.num_roots);
+        }
+    }
+    let mut rk: Vec<_> = rooted.into_iter().collect();
+    rk.sort();
+    out.push(kinds_line("RK", &rk));
+    out.push(format!("RS {} {} {}", nrooted, sum, max));
+    drain_log();
+    if has("log=1") {
+        LOG.with(|l| {
+            for r in l.borrow().iter() {
+                out.push(format!(
+                    "A {} {} {} {} {} {}",
+                    r.size,
+                    r.bytes_before,
+                    r.threshold_before,
+                    if r.collected { 1 } else { 0 },
+                    r.bytes_after,
+                    r.threshold_after
+                ));
+            }
+        });
+    }
+    if has("dropvm=1") {
+        drop(vm);
+        gcv::force_collect();
+        let (b, _t, n, _c) = gcv::stats();
+        let rooted = gcv::snapshot().iter().filter(|x| x.num_roots > 0).count();
+        out.push(format!("D {} {} {}", n, b, rooted));
+    }
+    gcv::set_logging(false);
+}
+
 #[allow(unused_variables)]
 pub fn dispatch(cmd: &str, args: &[&str], out: &mut Vec<String>) -> bool {
-    false
+    match cmd {
+        "c16" => {
+            cmd_c16(args, out);
+            true
+        }
+        _ => false,
+    }
 }
